@@ -97,6 +97,9 @@ def shapes(rec, repo, cap=400, per_size=40, budget=60.0):
         for h in st.pc:
             if drop_quant and has_quant(h): continue
             s.add(h)
+        if rec.get("extra_hyps"):
+            try: s.add(*rec["extra_hyps"](eng))          # facts the proofs assume about the shapes (e.g. the number of columns of the code matrix is M)
+            except Exception: pass
         for z, key, lo, hi in svars: s.add(z >= lo, z <= hi)
         for name, t in inst.items():
             v = st.env[name]
